@@ -4,6 +4,7 @@
 mod util;
 mod m_canon;
 mod m_depfile;
+mod m_diag;
 mod m_exec;
 mod m_hist;
 mod m_load;
@@ -36,7 +37,11 @@ fn main() {
         "load" => m_load::run(&mut ctx),
         "hist" => m_hist::run(&mut ctx),
         "exec" => m_exec::run(&mut ctx),
+        // only the text functions of task.rs (extract_showincludes, find_last_line): C09
+        "showinc" => { std::env::set_var("N2V_EXEC_TEXT_ONLY", "1"); m_exec::run(&mut ctx) }
         "sched" => m_sched::run(&mut ctx),
+        // diagnostics of the real binary that quote manifest / command line strings: C12
+        "diag" => m_diag::run(&mut ctx),
         _ => {
             eprintln!("unknown mode {mode}");
             std::process::exit(2);
